@@ -357,6 +357,20 @@ def name_validator_rule(ctx, prop, rid):
     ixt = ctx.func("pyxform.parsing.expression:is_xml_tag", rid)
     uses = [n for n in ast.walk(ixt.node) if isinstance(n, ast.Name) and n.id == "RE_ONLY_NCNAME"]
     r.check(bool(uses), "is_xml_tag:pattern", "is_xml_tag decides with that pattern", ixt.loc())
+    # the element validator refuses every name the pattern rejects - also one made of individually allowed characters
+    se = ctx.repo.cls("pyxform.survey_element:SurveyElement")
+    sev = se.methods["validate"]
+    for valid, found in ((True, True), (False, True), (False, False)):
+        it = ctx.interp(rid, hooks={"fnname:is_xml_tag": lambda i, a, k, n, v=valid: v,
+                                   "ext:re.search": lambda i, a, k, n, f=found: Sym("M", truthy=True, attrs={"group": lambda i2, a2, k2, n2: "?"}) if f else None})
+        it.reset([])
+        o = Obj(se, {"name": Sym("NAME", truthy=True, pytype=str)}, name="el")
+        desc = f"SurveyElement.validate[name {'valid' if valid else 'invalid'}{'' if found or valid else ', no single offending character'}]"
+        try:
+            it.call_function(sev, [o], {}, None, sev.node)
+            r.check(valid, desc, "only valid XML names pass", sev.loc())
+        except Raised as e:
+            r.check(not valid and "PyXFormError" in e.mro, desc, "an invalid name is refused with PyXFormError", sev.loc(), why_fail=f"raised {e.exc_name}")
     return r
 
 
